@@ -716,7 +716,7 @@ Lemma sorted_split (l1 : list (string * T)) e l2 :
 Proof.
   induction l1 as [|a l1 IH]; intros H.
   - cbn [app map] in H. apply StronglySorted_inv in H. destruct H as [_ H].
-    split; [constructor|]. apply Forall_map in H. exact H.
+    split; [constructor|]. exact (proj1 (Forall_map fst (name_lt (fst e)) l2) H).
   - cbn [app map] in H. apply StronglySorted_inv in H. destruct H as [Hs Ha].
     destruct (IH Hs) as [H1 H2]. split; [|exact H2]. constructor; [|exact H1].
     rewrite map_app in Ha. apply Forall_app in Ha. destruct Ha as [_ Ha]. cbn [map] in Ha.
@@ -822,10 +822,10 @@ Proof.
   induction l2 as [|[n s] l2 IH]; intros l1 HQ Hwf Hs; [reflexivity|].
   inversion HQ as [|? ? Hq HQr]; subst. inversion Hwf as [|? ? Hw Hwr]; subst. cbn [snd] in Hq, Hw.
   assert (Hs' : StronglySorted name_lt (map fst ((l1 ++ [(n, s)]) ++ l2))) by (rewrite <- app_assoc; exact Hs).
-  specialize (IH _ HQr Hwr Hs'). rewrite <- app_assoc in IH. cbn [app] in IH.
+  specialize (IH _ HQr Hwr Hs'). rewrite <- !app_assoc in IH. cbn [app] in IH.
   unfold filesonly in IH |- *. cbn [flat_map fst snd filter isfile].
-  destruct s as [b|es]; cbn [erecs app].
-  - exact IH.
+  destruct s as [b|es]; cbn [isfile snd].
+  - cbn [erecs app]. exact IH.
   - rewrite ains_app.
     destruct (sorted_split _ _ _ Hs) as [Hlt Hgt]. cbn [fst] in Hlt, Hgt.
     pose proof (Forall_filter _ isfile _ Hgt) as Hgt'.
